@@ -22,6 +22,7 @@ generated tree (op `wf`).  Helper lemmas live in `LyModel/Merge/Lemmas*.lean`.
 | `merge_contains_source`         | every source node is found by its path, explicit leaves with the source's value | source without key-less list / state leaf-list instances |
 | `merge_contains_source_pos`     | … by positions: the `k`-th source instance of a class of equal instances is the `k`-th of the result | all wf |
 | `merge_keeps_untouched_target`  | a target node whose path the source does not contain is unchanged            | source without such instances, path without them |
+| `merge_keeps_matched_term` (audit) | … also when the source holds there a leaf-list instance of that value or a default leaf without `LYD_MERGE_DEFAULTS` | same |
 | `merge_keeps_untouched_target_pos` | … by positions                                                             | all wf         |
 | `merge_result_canonical`, `merge_result_canon_fixpoint`, `merge_result_wf` | the result is well-formed again (shape, order, uniqueness, flags) | all wf |
 | `dup_equal_recursive`, `_content`, `_with_flags`, `dup_no_meta`, `dup_shallow` | a duplicate is the original relabelled as the options say | all (flags ok) |
@@ -223,9 +224,10 @@ example : merge exDS {} (merge exDS {} exDT exDSrc) exDSrc = merge exDS {} exDT 
 -- either, since the source does contain the path.  Minimal repair of the statement: one more conjunct
 --   `(x.isTerm = true → S.isKind x.sid .leaf = true → x.flags.dflt = true → o.defaults = false →
 --       ∀ y, descend S chain t = some y → n = y)`
--- (needs a variant of `keep_chain` (LemmasKeep2) whose last step is "matched leaf, not overwritten" instead of "no match": not done
--- here); or drop the half sentence from the docstring.  The behaviour itself is witnessed on the example trees directly below the
--- existing example (`exT` as the source with its default `a`, `exSrc` as the target with `a = e`).
+-- or drop the half sentence from the docstring.  The missing half is proved separately, for chains of TARGET nodes, as
+-- `merge_keeps_matched_term` below (with `keep_chain_alone`, appended to LemmasKeep2: `keep_chain` with the last step "matched term node,
+-- not copied" besides "no match"); this theorem's statement is left as it was.  The behaviour is also witnessed on the example trees
+-- directly below the existing example (`exT` as the source with its default `a`, `exSrc` as the target with `a = e`).
 /-- **merge_contains_source**: take any node `x` of the source, addressed by the chain of source nodes leading to it
 (`IsChain`: a top-level node, one of its non-key children, …).  Following the *same path of (schema node, keys / value)*
 in the result (`descend`) finds a node `n` of `x`'s schema node and identity; if `x` is a leaf that is explicit — or any
@@ -396,6 +398,32 @@ example : descend exS [auCT, .term 2 {} [] [50]] (merge exS {} exT exSrc) = some
    merge_keeps_untouched_target auS {} auT auSrc (by decide) (by decide) (by decide)
      [auT1, auIn 112 [.term 5 {} [] [49]], .term 5 {} [] [49]] _
      ⟨List.Mem.head _, by show _ ∈ [_, _, _]; simp [auIn], by show _ ∈ [_]; simp⟩ (by decide) rfl (by decide)⟩
+
+/-- **merge_keeps_matched_term** (audit addition; the repair proposed in the AUDIT note at `merge_contains_source`): a target node `y`,
+addressed by the chain of target nodes leading to it, is found unchanged in the result not only when the source does not contain its
+path (`merge_keeps_untouched_target`, the case `descend … s = none`) but also when what the source holds there is a term node that
+`lyd_merge_sibling_r` matches without copying (`Merge.LeavesAlone`): an instance of a leaf-list with `y`'s value, or a **default leaf
+while `LYD_MERGE_DEFAULTS` is not given** — "a default leaf of the source … is found with the target's value if the target had one". -/
+theorem merge_keeps_matched_term (S : Schema) (o : MergeOpts) (t s : List DNode) (ht : wfForest S t = true)
+    (hs : wfForest S s = true) (hd : noDupInstL S s = true) (chain : List DNode) (y : DNode)
+    (hc : IsChain S chain false t) (hcd : ∀ c ∈ chain, S.isDupInst c.sid = false ∧ S.isKey c.sid = false)
+    (hy : chain.getLast? = some y) (hn : LeavesAlone S o y (descend S chain s)) :
+    descend S chain (merge S o t s) = some y := by
+  obtain ⟨ht1, ht2, ht3, _⟩ := wfSibs_parts ht
+  obtain ⟨_, hs2, _⟩ := wfSibs_parts hs
+  exact keep_chain_alone S o chain false s [] false { cur := t } y ht1 ht2 ht3 (srcOk_of_wf hs hd) hs2 hc hcd hy hn
+
+/-- non-vacuity (audit): `exSrc` as the target, `exT` as the source.  The target's explicit `c/a = e` meets the source's default `a`: kept
+(value, flags, metadata) — while under `LYD_MERGE_DEFAULTS` the hypothesis fails and the node does change (see the example at
+`merge_contains_source`); the target's `c/ll = 1` meets the source's `ll = 1`: kept -/
+example : descend exS [auCS, .term 1 {} [] [101]] (merge exS {} exSrc exT) = some (.term 1 {} [] [101]) ∧
+    descend exS [auCS, .term 2 {} [] [49]] (merge exS { defaults := true } exSrc exT) = some (.term 2 {} [] [49]) :=
+  ⟨merge_keeps_matched_term exS {} exSrc exT (by decide) (by decide) (by decide) [auCS, .term 1 {} [] [101]] _
+     ⟨List.Mem.head _, by show _ ∈ [_, _, _, _, _, _]; simp⟩ (by decide) rfl
+     (show LeavesAlone exS {} _ (some (.term 1 { dflt := true } [] [100])) from ⟨rfl, by decide⟩),
+   merge_keeps_matched_term exS { defaults := true } exSrc exT (by decide) (by decide) (by decide) [auCS, .term 2 {} [] [49]] _
+     ⟨List.Mem.head _, by show _ ∈ [_, _, _, _, _, _]; simp⟩ (by decide) rfl
+     (show LeavesAlone exS _ _ (some (.term 2 {} [] [49])) from ⟨rfl, by decide⟩)⟩
 
 /-- **merge_keeps_untouched_target, by positions** (all well-formed trees, nodes in or below instances of key-less lists
 / state leaf-lists included).  A target node `y` is addressed by the chain of target nodes leading to it (no list keys),
